@@ -103,6 +103,8 @@ pub enum Action {
     NetStats { handle: usize },
     /// a long sleep before this node's step (virtual microseconds)
     Sleep { us: u64 },
+    /// poll_remote_clients before this node's step (an application that polls between ticks)
+    Poll,
 }
 
 impl ScriptItem {
